@@ -270,6 +270,18 @@ pub fn random_edit(doc: &mut AutoCommit, rng: &mut Rng, cfg: &GenCfg) -> Option<
         }
         ObjType::Text => {
             let len = doc.length(&obj);
+            // overwrite one text element (replicas doing this concurrently make conflicted text elements;
+            // a later splice then deletes winners and losers)
+            if len > 0 && rng.chance(1, 7) {
+                let i = rng.below(len.min(3) as u64) as usize;
+                let v: ScalarValue = match rng.below(4) {
+                    0 => ScalarValue::Str("ab".into()),
+                    1 if cfg.counters => ScalarValue::counter(rng.below(5) as i64),
+                    _ => ScalarValue::Str(rng.pick(&["q", "\u{e9}", "w"]).to_string().into()),
+                };
+                doc.put(&obj, i, v.clone()).ok()?;
+                return Some(format!("tput {} {:?}", i, v));
+            }
             let pos = rng.below(len as u64 + 1) as usize;
             let del = if len > pos && rng.chance(1, 3) { rng.below((len - pos).min(3) as u64 + 1) as isize } else { 0 };
             let s = if rng.chance(1, 5) { "" } else { *rng.pick(&STRS) };
